@@ -103,4 +103,64 @@ theorem reverse_feeds : ∀ (ctx : BCtx) (outs : List BNode) (next : Nat) (o' : 
           obtain ⟨rfl, rfl, rfl, rfl⟩ := hr
           exact List.mem_append.2 (Or.inr (reverse_feeds prev _ _ o2 e2 p2 n2 h2 n o hp))
 
+/-- which node the backward pass hands on unchanged: `c` is the fresh clone `Context.reverse` creates for the node `n` that came in,
+because the layer inherits the name backwards and has no inverse field of that name -/
+inductive Passes : BCtx → List BNode → Nat → BNode → BNode → Prop
+  | bag {bi bo inh outs next n c} :
+      c ∈ (cloneEdges false (outs.filter fun m => inh.mem m.name && !(names bo).contains m.name) next).1 →
+      identityEdge n c ∈ (cloneEdges false (outs.filter fun m => inh.mem m.name && !(names bo).contains m.name) next).2.1 →
+      Passes (.bag bi bo inh) outs next n c
+  | later {p c' outs next n c} : Passes c' outs next n c → Passes (.chain p c') outs next n c
+  | earlier {p c' outs next n c o1 e1 p1 n1} : c'.reverse outs next = .ok (o1, e1, p1, n1) → Passes p o1 n1 n c →
+      Passes (.chain p c') outs next n c
+
+/-- a layer hands on every incoming node whose name it inherits backwards and does not invert itself -/
+theorem bag_pass_exists (bi bo : List BNode) (inh : NameSet) (outs : List BNode) (next : Nat) (n : BNode) (hn : n ∈ outs)
+    (hi : inh.mem n.name = true) (hb : (names bo).contains n.name = false) :
+    ∃ c, c.name = n.name ∧ Passes (.bag bi bo inh) outs next n c := by
+  have hmem : n ∈ outs.filter fun m => inh.mem m.name && !(names bo).contains m.name := by
+    have hb' : n.name ∉ names bo := by simpa using hb
+    simp [List.mem_filter, hn, hi, hb']
+  obtain ⟨c, hc, hname, he⟩ := (cloneEdges_spec false _ next).2.2.2.2.2 n hmem
+  exact ⟨c, hname, .bag hc (by simpa using he)⟩
+
+/-- the pass-through edges are among the edges `reverse` creates -/
+theorem reverse_passes : ∀ (ctx : BCtx) (outs : List BNode) (next : Nat) (o' : List BNode) (es : List BEdge)
+    (pp : List BNode) (n' : Nat), ctx.reverse outs next = .ok (o', es, pp, n') →
+    ∀ n c, Passes ctx outs next n c → identityEdge n c ∈ es
+  | .no, _, _, _, _, _, _, h => by simp [BCtx.reverse] at h
+  | .ident, _, _, _, _, _, _, _ => by intro n c hf; cases hf
+  | .bag inputs outputs inherit, outs, next, o', es, pp, n', h => by
+    intro n c hf
+    cases hf with
+    | bag hc he =>
+      simp only [BCtx.reverse, bind, Except.bind] at h
+      split at h
+      · cases h
+      · split at h
+        · cases h
+        · simp only [Except.ok.injEq, Prod.mk.injEq] at h
+          obtain ⟨_, rfl, _, _⟩ := h
+          exact List.mem_append.2 (Or.inr he)
+  | .chain prev cur, outs, next, o', es, pp, n', h => by
+    intro n c hf
+    simp only [BCtx.reverse, bind, Except.bind] at h
+    split at h
+    · cases h
+    · rename_i r1 h1
+      obtain ⟨o1, e1, p1, n1⟩ := r1
+      split at h
+      · cases h
+      · rename_i r2 h2
+        obtain ⟨o2, e2, p2, n2⟩ := r2
+        simp only [Except.ok.injEq, Prod.mk.injEq] at h
+        obtain ⟨_, rfl, _, _⟩ := h
+        cases hf with
+        | later hl => exact List.mem_append.2 (Or.inl (reverse_passes cur outs next o1 e1 p1 n1 h1 n c hl))
+        | earlier hr hp =>
+          rw [h1] at hr
+          simp only [Except.ok.injEq, Prod.mk.injEq] at hr
+          obtain ⟨rfl, rfl, rfl, rfl⟩ := hr
+          exact List.mem_append.2 (Or.inr (reverse_passes prev _ _ o2 e2 p2 n2 h2 n c hp))
+
 end CM
